@@ -667,6 +667,48 @@ func genEtcd(r *hx.Rng, faults bool, reports bool, wrap bool) {
 	drainAll()
 }
 
+// one operation of instance i run to completion (no other instance interleaves)
+func runOp(i int, what string, arg uint64) {
+	do("estart", s(i, what, arg))
+	for n := 0; n < 100; n++ {
+		in := w.einsts[i]
+		if in == nil || !in.busy {
+			return
+		}
+		do("kv", s(i, 0))
+	}
+}
+
+// two masters on one etcd, leadership A -> B -> A: A reserves a batch and hands out part of it, B takes
+// over (constructor + SetMax from a heartbeat + assignments), then A leads again, uses up the rest of
+// its old window and has to fetch a new batch behind B's
+func genEtcdABA(r *hx.Rng) {
+	do("reset", nil)
+	runOp(0, "new", 0)
+	runOp(1, "new", 1)
+	used := uint64(0)
+	for k := 0; k < 1+r.Intn(4); k++ {
+		c := uint64(1 + r.Intn(20))
+		runOp(0, "next", c)
+		used += c
+	}
+	if r.Bool() {
+		runOp(1, "set", used) // the heartbeat tells B the largest key written so far
+	}
+	for k := 0; k < 1+r.Intn(4); k++ {
+		runOp(1, "next", uint64(1+r.Intn(60)))
+	}
+	if r.Bool() {
+		runOp(0, "set", w.einsts[1].es.Peek()-1-uint64(r.Intn(3))) // A hears about keys written under B
+	}
+	for k := 0; k < 3+r.Intn(6); k++ {
+		runOp(0, "next", uint64(1+r.Intn(300)))
+	}
+	for k := 0; k < 2; k++ {
+		runOp(1, "next", uint64(1+r.Intn(300)))
+	}
+}
+
 func genVid(r *hx.Rng, serial bool) {
 	do("reset", nil)
 	do("vnew", nil)
@@ -755,6 +797,7 @@ func main() {
 		genEtcd(r, false, false, false)
 		genEtcd(r, k%2 == 0, true, false)
 		genEtcd(r, true, false, false)
+		genEtcdABA(r)
 		if k%3 == 1 {
 			genEtcd(r, k%2 == 0, true, true)
 		}
